@@ -892,6 +892,19 @@ class MirrorRun:
         self.lines.append(line)
         self.impl.append(impl)
 
+    def ideal(self, dm, exact):
+        """the cache-free evaluation on the running code (no property, no cache involved) against the model's
+        specification state machine (Spec.step alongside the cached mirror): surface and opd"""
+        a = np.asarray(dm.actuators)
+        free = np.asarray(dm.influence_functions.linear_combination(a))
+        idx = len(self.lines)
+        if exact:
+            self.emit('C14 mirror ideal', 'ok %s %s' % (fmt_vec(free), fmt_vec(2 * free)))
+        else:
+            self.numeric[idx] = np.concatenate([free, 2 * free])
+            self.emit('C14 mirror ideal', 'numeric')
+        self.count('mirror-ideal')
+
     def set_if(self, dm, grid, spec, first):
         """(re)define the influence functions; returns their dense matrix as the mirror reports it."""
         import hcipy
@@ -1035,6 +1048,7 @@ class MirrorRun:
                 else:
                     self.numeric[idx] = now
                     self.emit('C14 mirror held %d' % ordinal, 'numeric')
+                self.ideal(dm, exact)
                 self.count('mirror-sedit:' + mode)
                 self.count('mirror-sedit-target:' + ('latest' if op['j'] == len(self.held) - 1 else 'earlier'))
                 last_mut = 'edit-of-returned-surface'
@@ -1076,7 +1090,15 @@ class MirrorRun:
                 if how != 'surface':
                     # the read-out evaluated dm.surface internally (one model read whose array nobody keeps);
                     # the surface itself is then read by the caller (a second model read)
-                    self.emit('C14 mirror read', 'hit-only')
+                    if how == 'opd':
+                        # the model executes the opd read-out itself (readOpd): values and hit/miss are compared
+                        if exact:
+                            self.emit('C14 mirror opd', 'ok ' + fmt_vec(got))
+                        else:
+                            self.numeric[idx] = np.asarray(got).copy()
+                            self.emit('C14 mirror opd', 'numeric')
+                    else:
+                        self.emit('C14 mirror read', 'hit-only')
                     self.nreads += 1
                     before = getattr(dm, '_actuators_for_cached_surface', ABSENT)
                     surf_obj = dm.surface
@@ -1093,6 +1115,7 @@ class MirrorRun:
                 else:
                     self.numeric[idx] = surf_now
                     self.emit('C14 mirror read', 'numeric')
+                self.ideal(dm, exact)
                 self.count('mirror-read:' + how)
                 self.count('mirror-read-after:' + last_mut)
                 if edited_since_read:
@@ -1207,6 +1230,10 @@ def directed_cases():
 
 # ---------------------------------------------------------------------------------------------
 
+def is_read(line):
+    return line.endswith('mirror read') or line.endswith('mirror opd')
+
+
 def execute(case):
     return (BasisRun(case) if case['type'] == 'basis' else MirrorRun(case)).run()
 
@@ -1279,19 +1306,21 @@ def run(ctx):
                     ctx.disagree(stream, {'line': r.lines[j], 'impl': 'independent modes', 'model': got})
                     break
                 vec = parse_vec(got.split()[1])
+                if r.lines[j].endswith('mirror ideal') and got.startswith('ok'):
+                    vec = np.concatenate([vec, parse_vec(got.split()[2])])
                 x = np.asarray(r.numeric[j])
                 if vec.shape != x.shape or not np.all(np.abs(vec - x) <= TOL * max(1.0, float(np.abs(vec).max(initial=0)))):
                     key = None
                     ctx.disagree(stream, {'line': r.lines[j], 'impl': fmt_vec(x), 'model': got, 'case': case}, key=key)
                     break
-            elif r.lines[j].endswith('mirror read'):
+            elif is_read(r.lines[j]):
                 if got.rsplit(' ', 1)[0] != want:
                     ctx.disagree(stream, {'line': r.lines[j], 'impl': want, 'model': got, 'case': case})
                     break
             elif got != want:
                 ctx.disagree(stream, {'line': r.lines[j], 'impl': want, 'model': got, 'case': case})
                 break
-            if r.lines[j].endswith('mirror read') and getattr(r, 'hits', {}).get(j) is not None:
+            if is_read(r.lines[j]) and getattr(r, 'hits', {}).get(j) is not None:
                 hit_cmp += 1
                 ctx.count('mirror-cache:' + r.hits[j])
                 if got.rsplit(' ', 1)[1] != r.hits[j]:
